@@ -109,18 +109,22 @@ Notation serve_loop_ := (serve_loop St st_get st_set st_incr st_delete st_proces
 Lemma add_get_tok a c s : a_tokens_out (add_get a c s) = a_tokens_out a. Proof. reflexivity. Qed.
 Lemma add_set_tok a c s : a_tokens_out (add_set a c s) = a_tokens_out a. Proof. reflexivity. Qed.
 
-Lemma get_many_tok keys : forall st a single,
-  a_tokens_out (snd (get_many St st_get st keys a single)) = a_tokens_out a.
+Lemma get_many_gen_tok dd keys : forall st a single seen,
+  a_tokens_out (snd (get_many_gen St st_get dd st keys a single seen)) = a_tokens_out a.
 Proof.
-  induction keys as [|k t IH]; intros st a single; cbn [get_many]; [reflexivity|].
+  induction keys as [|k t IH]; intros st a single seen; cbn [get_many_gen]; [reflexivity|].
+  destruct (dd && existsb (beq k) seen); [apply IH|].
   destruct (st_get st k) as [st1 g]. destruct g as [|body flag charged|msg|].
   - apply IH.
-  - specialize (IH st1 (if charged then add_get a 1 (Z.of_N (lenN body)) else a) single).
-    destruct (get_many St st_get st1 t _ single) as [[[st2 o] items] a2]. cbn [snd] in *.
+  - specialize (IH st1 (if charged then add_get a 1 (Z.of_N (lenN body)) else a) single (k :: seen)).
+    destruct (get_many_gen St st_get dd st1 t _ single (k :: seen)) as [[[st2 o] items] a2]. cbn [snd] in *.
     rewrite IH. destruct charged; reflexivity.
   - destruct single; [reflexivity|apply IH].
   - reflexivity.
 Qed.
+Lemma get_many_tok keys st a single :
+  a_tokens_out (snd (get_many St st_get st keys a single)) = a_tokens_out a.
+Proof. apply get_many_gen_tok. Qed.
 
 Lemma fold_release_tok items : forall a,
   a_tokens_out (fold_left (fun acc (it : bytes * bytes * Z) =>
@@ -324,6 +328,42 @@ Lemma get_many_charges keys : forall st a single st1 cas items a1,
   True.
 Proof. trivial. Qed.
 
+Lemma beq_true a b : beq a b = true <-> a = b.
+Proof. unfold beq. destruct (list_eq_dec N.eq_dec a b); split; intros; congruence. Qed.
+
+(* with the repeated-key repair every fetched item stays in the map: none is replaced *)
+Lemma get_many_gen_sums keys : forall st a single seen,
+  let '(st1, o, items, a1) := get_many_gen St st_get true st keys a single seen in
+  match o with
+  | OReply (RValues _ _) =>
+      a_set_c a1 = a_set_c a /\ a_set_s a1 = a_set_s a /\
+      a_get_c a1 = (a_get_c a + gcnt items)%Z /\ a_get_s a1 = (a_get_s a + gsz items)%Z /\
+      (forall it, In it items -> existsb (beq (fst (fst it))) seen = false)
+  | _ => True
+  end.
+Proof.
+  induction keys as [|k t IH]; intros st a single seen; cbn [get_many_gen].
+  - cbn. repeat split; try lia; try (intros it []).
+  - cbn [andb]. destruct (existsb (beq k) seen) eqn:Esk; [apply IH|].
+    destruct (st_get st k) as [st1 g] eqn:Eg. destruct g as [|body flag charged|msg|].
+    + apply IH.
+    + pose proof (get_contract _ _ _ _ _ _ Eg) as Hc.
+      specialize (IH st1 (if charged then add_get a 1 (Z.of_N (lenN body)) else a) single (k :: seen)).
+      destruct (get_many_gen St st_get true st1 t _ single (k :: seen)) as [[[st2 o] items] a2].
+      destruct o as [r| |]; try exact I. destruct r; try exact I.
+      destruct IH as (H1 & H2 & H3 & H4 & H5).
+      assert (Hnk : has_key k items = false).
+      { unfold has_key. destruct (existsb (fun it => beq (fst (fst it)) k) items) eqn:E; [|reflexivity]. exfalso.
+        apply existsb_exists in E as (it & Hin & Hb). apply beq_true in Hb. specialize (H5 it Hin). cbn [existsb] in H5.
+        rewrite Hb in H5. assert (beq k k = true) by now apply beq_true. rewrite H in H5. discriminate. }
+      rewrite Hnk. rewrite gcnt_cons, gsz_cons.
+      subst charged. destruct (special k); cbn [negb] in *; cbn [add_get a_set_c a_set_s a_get_c a_get_s] in *; repeat split; try lia.
+      * intros it [<-|Hin]; [exact Esk|]. specialize (H5 it Hin). cbn [existsb] in H5. apply orb_false_iff in H5. apply H5.
+      * intros it [<-|Hin]; [exact Esk|]. specialize (H5 it Hin). cbn [existsb] in H5. apply orb_false_iff in H5. apply H5.
+    + destruct single; [exact I|apply IH].
+    + exact I.
+Qed.
+
 Lemma get_many_sums keys : forall st a single,
   let '(st1, o, items, a1) := get_many St st_get st keys a single in
   match o with
@@ -333,18 +373,10 @@ Lemma get_many_sums keys : forall st a single,
   | _ => True
   end.
 Proof.
-  induction keys as [|k t IH]; intros st a single; cbn [get_many].
-  - cbn. repeat split; lia.
-  - destruct (st_get st k) as [st1 g] eqn:Eg. destruct g as [|body flag charged|msg|].
-    + apply IH.
-    + pose proof (get_contract _ _ _ _ _ _ Eg) as Hc.
-      specialize (IH st1 (if charged then add_get a 1 (Z.of_N (lenN body)) else a) single).
-      destruct (get_many St st_get st1 t _ single) as [[[st2 o] items] a2].
-      destruct o as [r| |]; try exact I. destruct r; try exact I.
-      rewrite gcnt_cons, gsz_cons. destruct IH as (H1 & H2 & H3 & H4).
-      subst charged. destruct (special k); cbn [negb] in *; cbn [add_get a_set_c a_set_s a_get_c a_get_s] in *; repeat split; lia.
-    + destruct single; [exact I|apply IH].
-    + exact I.
+  intros st a single. unfold get_many. change getmulti_skips_duplicates with true.
+  pose proof (get_many_gen_sums keys st a single []) as H.
+  destruct (get_many_gen St st_get true st keys a single []) as [[[st1 o] items] a1].
+  destruct o as [r| |]; try exact I. destruct r; try exact I. destruct H as (H1 & H2 & H3 & H4 & _). auto.
 Qed.
 
 (* a request is "clean" when the storage client hands every buffer back on its path *)
@@ -375,20 +407,24 @@ Definition charged_by_read (q : request) (a : acct) : acct :=
   | _ => a
   end.
 
-Lemma get_many_acct_indep keys : forall st a b single,
-  fst (get_many St st_get st keys a single) = fst (get_many St st_get st keys b single).
+Lemma get_many_gen_acct_indep dd keys : forall st a b single seen,
+  fst (get_many_gen St st_get dd st keys a single seen) = fst (get_many_gen St st_get dd st keys b single seen).
 Proof.
-  induction keys as [|k t IH]; intros st a b single; cbn [get_many]; [reflexivity|].
+  induction keys as [|k t IH]; intros st a b single seen; cbn [get_many_gen]; [reflexivity|].
+  destruct (dd && existsb (beq k) seen); [apply IH|].
   destruct (st_get st k) as [st1 g]. destruct g as [|body flag charged|msg|].
   - apply IH.
   - specialize (IH st1 (if charged then add_get a 1 (Z.of_N (lenN body)) else a)
-                   (if charged then add_get b 1 (Z.of_N (lenN body)) else b) single).
-    destruct (get_many St st_get st1 t (if charged then add_get a 1 _ else a) single) as [[[sa oa] ia] aa].
-    destruct (get_many St st_get st1 t (if charged then add_get b 1 _ else b) single) as [[[sb ob] ib] ab].
+                   (if charged then add_get b 1 (Z.of_N (lenN body)) else b) single (k :: seen)).
+    destruct (get_many_gen St st_get dd st1 t (if charged then add_get a 1 _ else a) single (k :: seen)) as [[[sa oa] ia] aa].
+    destruct (get_many_gen St st_get dd st1 t (if charged then add_get b 1 _ else b) single (k :: seen)) as [[[sb ob] ib] ab].
     cbn [fst] in *. injection IH as -> -> ->. reflexivity.
   - destruct single; [reflexivity|apply IH].
   - reflexivity.
 Qed.
+Lemma get_many_acct_indep keys st a b single :
+  fst (get_many St st_get st keys a single) = fst (get_many St st_get st keys b single).
+Proof. apply get_many_gen_acct_indep. Qed.
 
 Theorem process_balance pc st q a :
   clean pc st q = true ->
